@@ -19,7 +19,7 @@ TECHNIQUE = (
 RULE = (
     "nosource: plain = all strings <= 5 over {a,b,' '} x all ordered tuples of <= 2 (quick) / 3 (thorough, |plain| <= 4) spans; "
     "forced: plains of distinct and repeated letters x all placements of <= k insertions from {<i>,</i>,<b>,</b>,\\n,\\t\\t} x "
-    "all <= 2-span tuples x 2 engines; long: 2 plain texts of > 200 characters x 4 word-level insertion patterns x all word-run spans "
+    "all <= 2-span tuples x 2 engines; long: 3 plain texts of > 200 characters (one made of repeated identical lines) x 4 insertion patterns x all word-run spans "
     "and adjacent pairs x 2 engines; updater: all ordered pairs of strings <= 4 over {x,y,<} x 2 engines x 2 bisect "
     "functions x all offsets. non-trivial = >= 1 annotation that is non-empty and not overlapped by an earlier one."
 )
@@ -92,6 +92,7 @@ LONG_PLAINS = [
     "381 U.S. 479, 484 (1965), had said as much. Id. at 485. See also Eisenstadt v. Baird, 405 U.S. 438 (1972); Roe, supra, at 152.",
     "aa bb aa bb aa bb cc aa bb aa dd aa bb aa bb aa bb cc aa bb aa dd aa bb aa bb aa bb cc aa bb aa dd aa bb aa bb aa bb cc aa bb "
     "aa dd aa bb aa bb aa bb cc aa bb aa dd aa bb aa bb aa bb cc aa bb aa dd aa bb aa bb aa bb cc aa bb aa dd ee",
+    ("See Roe v. Wade, 410 U.S. 113 (1973).\n" * 7) + "Id. at 153; Doe v. Bolton, 410 U.S. 179 (1973).\n",  # repeated identical lines
 ]
 
 
@@ -110,6 +111,12 @@ def long_sources(plain):
         return "".join(parts), pos
 
     n = len(plain)
+    if "\n" in plain:  # a line break would not be foreign to this text: use a form feed
+        yield ("ff-after-space",) + build(lambda i: "\f" if 0 < i <= n and plain[i - 1] == " " else "")
+        yield ("tab-before-digit",) + build(lambda i: "\t" if i < n and plain[i].isdigit() and (i == 0 or not plain[i - 1].isdigit()) else "")
+        yield ("q-on-every-line",) + build(lambda i: ("</q>" if i < n and plain[i] == "\n" else "") + ("<q>" if i == 0 or (i < n and plain[i - 1] == "\n") else ""))
+        yield ("tab-on-two-lines",) + build(lambda i: "\t\t" if i in (5, 43) else "")
+        return
     yield ("nl-after-space",) + build(lambda i: "\n" if 0 < i <= n and plain[i - 1] == " " else "")
     yield ("tab-before-digit",) + build(lambda i: "\t" if i < n and plain[i].isdigit() and (i == 0 or not plain[i - 1].isdigit()) else "")
     def tags(i):
@@ -124,8 +131,9 @@ def long_sources(plain):
 
 
 def word_spans(plain, maxwords=3):
-    starts = [i for i in range(len(plain)) if plain[i] != " " and (i == 0 or plain[i - 1] == " ")]
-    ends = [i + 1 for i in range(len(plain)) if plain[i] != " " and (i + 1 == len(plain) or plain[i + 1] == " ")]
+    ws = " \n"
+    starts = [i for i in range(len(plain)) if plain[i] not in ws and (i == 0 or plain[i - 1] in ws)]
+    ends = [i + 1 for i in range(len(plain)) if plain[i] not in ws and (i + 1 == len(plain) or plain[i + 1] in ws)]
     out = []
     for wi, s in enumerate(starts):
         for k in range(maxwords):
